@@ -354,7 +354,7 @@ class ThreadBuilder:
         if i >= len(items):
             slot = st.get("@slot0")
             live = 2 if (isinstance(slot, tuple) and slot[1] == "SlotPending") else 0
-            return self.new_node(dict(kind="NOP", ghost=dict(outcome=10 + live)), {None: "END"})
+            return self.new_node(dict(kind="NOP", ghost=dict(outcome=10 + live), late=True), {None: "END"})
         saved = self.cur_item
         self.cur_item = i + 1
         try:
